@@ -76,7 +76,7 @@ pub open spec fn lay_ok(f: &NarseseFormat<&str>, e: Seq<char>, l: Lay, p: int) -
             let pc = ea + f.space.format_terms@.len();
             let pb = pc + copula_seq(f)[k].len() + f.space.format_terms@.len();
             let eb = pb + lay_text(f, *b).len();
-            &&& 0 <= k < 13
+            &&& stmt_k_ok(k)
             &&& term_branch(f, e, p) == 3
             &&& !kw_at(e, pa, sp)
             &&& lay_ok(f, e, *a, pa)
@@ -188,4 +188,355 @@ pub open spec fn atom_prefix_here(st: &ParseState<'_, &str>) -> bool {
     st.at_head(f.atom.prefix_placeholder@) || st.at_head(f.atom.prefix_variable_independent@)
         || st.at_head(f.atom.prefix_variable_dependent@) || st.at_head(f.atom.prefix_variable_query@)
         || st.at_head(f.atom.prefix_interval@) || st.at_head(f.atom.prefix_operator@) || st.at_head(f.atom.prefix_word@)
+}
+
+// ---- the component loop (parse_compound_terms) ----
+/// hypothesis at the loop's entry: from the cursor the items are laid out up to `rb`
+pub open spec fn list_hyp(st0: &ParseState<'_, &str>, items: Seq<Lay>, rb: Seq<char>, g0: Seq<char>) -> bool {
+    list_ok(st0.format, st0.env@, items, 0, st0.head as int, rb, g0) && rb.len() > 0 && format_wf(st0.format)
+}
+/// loop invariant: n = the number of terms appended so far are the first n items, and the cursor
+/// is somewhere in the run of spaces / separators after item n-1
+pub open spec fn list_inv(st0: &ParseState<'_, &str>, head: int, items: Seq<Lay>, g0: Seq<char>, t0: Seq<Term>, t: Seq<Term>) -> bool {
+    let n = t.len() - t0.len();
+    let xn = list_pos(st0.format, items, n as nat, st0.head as int, g0);
+    &&& 0 <= n <= items.len()
+    &&& xn <= head
+    &&& skip_end(st0.format, st0.env@, head) == skip_end(st0.format, st0.env@, xn)
+    &&& forall|i: int| t0.len() <= i < t.len() ==> lay_of(items[i - t0.len()], #[trigger] t[i])
+}
+/// the loop is done: all items read, the cursor on the closing bracket
+pub open spec fn list_done(st0: &ParseState<'_, &str>, head: int, items: Seq<Lay>, rb: Seq<char>, g0: Seq<char>, t0: Seq<Term>, t: Seq<Term>) -> bool {
+    &&& t.len() == t0.len() + items.len()
+    &&& head == list_pos(st0.format, items, items.len(), st0.head as int, g0)
+    &&& kw_at(st0.env@, head, rb)
+    &&& !kw_at(st0.env@, head, st0.format.space.parse@)
+    &&& forall|i: int| t0.len() <= i < t.len() ==> lay_of(items[i - t0.len()], #[trigger] t[i])
+}
+/// what one iteration does, by what stands at the cursor `st.head`
+pub open spec fn list_cases(st0: &ParseState<'_, &str>, st: &ParseState<'_, &str>, items: Seq<Lay>, rb: Seq<char>, g0: Seq<char>, t0: Seq<Term>, t: Seq<Term>) -> bool {
+    let f = st0.format; let e = st0.env@; let h = st.head as int;
+    let sp = f.space.parse@; let sep = f.compound.separator@;
+    let n = t.len() - t0.len();
+    &&& h < e.len()
+    &&& (kw_at(e, h, sp) ==> list_inv(st0, h + sp.len(), items, g0, t0, t))
+    &&& (!kw_at(e, h, sp) && kw_at(e, h, sep) ==> list_inv(st0, h + sep.len(), items, g0, t0, t))
+    &&& (!kw_at(e, h, sp) && !kw_at(e, h, sep) && kw_at(e, h, rb) ==> list_done(st0, h, items, rb, g0, t0, t))
+    &&& (!kw_at(e, h, sp) && !kw_at(e, h, sep) && !kw_at(e, h, rb) ==> 0 <= n < items.len() && e_hyp(st, items[n])
+            && h + lay_text(f, items[n]).len() == list_pos(f, items, (n + 1) as nat, st0.head as int, g0))
+}
+/// the text of a readable layout is not empty
+pub proof fn lemma_lay_text_nonempty(f: &NarseseFormat<&str>, e: Seq<char>, l: Lay, p: int)
+    requires lay_ok(f, e, l, p), format_wf(f)
+    ensures lay_text(f, l).len() > 0
+{
+    match l {
+        Lay::Atom { k, name } => {
+            if k == 0 { assert(atom_try_order(f)[0] == f.atom.prefix_placeholder@); }
+        },
+        _ => {},
+    }
+}
+pub proof fn lemma_list_cases(st0: &ParseState<'_, &str>, st: &ParseState<'_, &str>, items: Seq<Lay>, rb: Seq<char>, g0: Seq<char>, t0: Seq<Term>, t: Seq<Term>)
+    requires
+        list_hyp(st0, items, rb, g0), st.same_but_head(st0), list_inv(st0, st.head as int, items, g0, t0, t),
+    ensures
+        // the loop never runs off the end of the input before the closing bracket
+        st.head >= st0.env@.len() ==> false,
+        st.head < st0.env@.len() ==> list_cases(st0, st, items, rb, g0, t0, t),
+{
+    let f = st0.format; let e = st0.env@; let h = st.head as int;
+    let sp = f.space.parse@; let sep = f.compound.separator@;
+    let n = (t.len() - t0.len()) as nat;
+    let xn = list_pos(f, items, n, st0.head as int, g0);
+    lemma_list_ok_at(f, e, items, n, st0.head as int, rb, g0);
+    assert(list_ok(f, e, items, n, xn, rb, g0));
+    if !kw_at(e, h, sp) && !kw_at(e, h, sep) {
+        assert(skip_end(f, e, h) == h);
+        if n < items.len() {
+            let g = if n == 0 { g0 } else { lay_sep(f) };
+            assert(h == xn + g.len());
+            assert(lay_ok(f, e, items[n as int], h));
+            lemma_lay_text_nonempty(f, e, items[n as int], h);
+            assert(e_hyp(st, items[n as int]));
+        } else {
+            assert(h == xn);
+        }
+    }
+}
+/// one iteration keeps the invariant: `a` the state and targets at the start of the iteration
+/// (where list_cases holds), `b` at its end; either a space / separator was skipped (targets
+/// unchanged) or one term with the next item's layout was appended
+pub proof fn lemma_list_step(st0: &ParseState<'_, &str>, a: &ParseState<'_, &str>, b: &ParseState<'_, &str>, items: Seq<Lay>, rb: Seq<char>, g0: Seq<char>, t0: Seq<Term>, ta: Seq<Term>, tb: Seq<Term>)
+    requires
+        list_hyp(st0, items, rb, g0), a.same_but_head(st0), b.same_but_head(st0),
+        list_inv(st0, a.head as int, items, g0, t0, ta),
+        list_cases(st0, a, items, rb, g0, t0, ta),
+        ta.len() >= t0.len(),
+        // what the three non-breaking arms do
+        ({
+            let e = st0.env@; let h = a.head as int; let sp = st0.format.space.parse@; let sep = st0.format.compound.separator@;
+            ||| (kw_at(e, h, sp) && b.head == h + sp.len() && tb == ta)
+            ||| (!kw_at(e, h, sp) && kw_at(e, h, sep) && b.head == h + sep.len() && tb == ta)
+            ||| (!kw_at(e, h, sp) && !kw_at(e, h, sep) && !kw_at(e, h, rb)
+                && (exists|t: Term| tb == ta.push(t) && #[trigger] lay_of(items[ta.len() - t0.len()], t))
+                && b.head == h + lay_text(st0.format, items[ta.len() - t0.len()]).len())
+        }),
+    ensures list_inv(st0, b.head as int, items, g0, t0, tb),
+{
+    let f = st0.format; let e = st0.env@; let h = a.head as int;
+    let sp = f.space.parse@; let sep = f.compound.separator@;
+    if !kw_at(e, h, sp) && !kw_at(e, h, sep) {
+        let n = ta.len() - t0.len();
+        let t = choose|t: Term| tb == ta.push(t) && #[trigger] lay_of(items[n], t);
+        assert forall|i: int| t0.len() <= i < tb.len() implies lay_of(items[i - t0.len()], #[trigger] tb[i]) by {
+            if i < ta.len() { assert(tb[i] == ta[i]); }
+        }
+    }
+}
+
+// ---- sets: bracket, items, bracket (parse_term_set) ----
+pub open spec fn set_hyp(st0: &ParseState<'_, &str>, items: Seq<Lay>, lb: Seq<char>, rb: Seq<char>) -> bool {
+    items.len() > 0 && rb.len() > 0 && format_wf(st0.format)
+        && list_ok(st0.format, st0.env@, items, 0, st0.head + lb.len(), rb, Seq::empty())
+}
+pub open spec fn set_res(r: ParseResult<Vec<Term>>, st: &ParseState<'_, &str>, st0: &ParseState<'_, &str>, items: Seq<Lay>, lb: Seq<char>, rb: Seq<char>, t0: Seq<Term>) -> bool {
+    &&& r matches Ok(v) && v@.len() == t0.len() + items.len()
+        && forall|i: int| t0.len() <= i < v@.len() ==> lay_of(items[i - t0.len()], #[trigger] v@[i])
+    &&& st.head == list_pos(st0.format, items, items.len(), st0.head + lb.len(), Seq::empty()) + rb.len()
+}
+/// after the opening bracket (and no spaces: the first item stands right there) the loop's hypothesis holds
+pub proof fn lemma_set_entry(st0: &ParseState<'_, &str>, st: &ParseState<'_, &str>, items: Seq<Lay>, lb: Seq<char>, rb: Seq<char>)
+    requires set_hyp(st0, items, lb, rb), st.same_but_head(st0), st.head == st0.after_spaces(st0.head + lb.len()),
+    ensures list_hyp(st, items, rb, Seq::empty()), st.head == st0.head + lb.len(),
+{
+    let f = st0.format; let e = st0.env@; let x0 = st0.head + lb.len();
+    assert(skip_end(f, e, x0) == x0);
+    if kw_at(e, x0, f.space.parse@) { lemma_skip_end_ge(f, e, x0 + f.space.parse@.len()); }
+    assert(!kw_at(e, x0, f.space.parse@));
+}
+pub proof fn lemma_skip_end_ge(f: &NarseseFormat<&str>, e: Seq<char>, x: int)
+    ensures skip_end(f, e, x) >= x
+    decreases e.len() - x
+{
+    let sp = f.space.parse@; let sep = f.compound.separator@;
+    if sp.len() > 0 && kw_at(e, x, sp) { lemma_skip_end_ge(f, e, x + sp.len()); }
+    else if sep.len() > 0 && kw_at(e, x, sep) { lemma_skip_end_ge(f, e, x + sep.len()); }
+}
+pub proof fn lemma_list_pos_join(f: &NarseseFormat<&str>, items: Seq<Lay>, n: nat, x0: int, g0: Seq<char>)
+    requires n <= items.len()
+    ensures list_pos(f, items, n, x0, g0) == x0 + (if n == 0 { 0int } else { (g0.len() + lay_join(f, items, n).len()) as int })
+    decreases n
+{
+    if n == 1 {
+        assert(list_pos(f, items, 0, x0, g0) == x0);
+        assert(lay_join(f, items, 1) == lay_text(f, items[0]));
+    } else if n > 1 {
+        lemma_list_pos_join(f, items, (n - 1) as nat, x0, g0);
+        let a = lay_join(f, items, (n - 1) as nat);
+        assert(lay_join(f, items, n) == a + lay_sep(f) + lay_text(f, items[n - 1]));
+        assert((a + lay_sep(f) + lay_text(f, items[n - 1])).len() == a.len() + lay_sep(f).len() + lay_text(f, items[n - 1]).len());
+        assert(list_pos(f, items, n, x0, g0) == list_pos(f, items, (n - 1) as nat, x0, g0) + lay_sep(f).len() + lay_text(f, items[n - 1]).len());
+    }
+}
+/// the set about to be built from the parsed terms has the layout, and the cursor is at its end
+pub open spec fn set_built(st0: &ParseState<'_, &str>, st: &ParseState<'_, &str>, l: Lay, terms: Seq<Term>) -> bool {
+    &&& l is Set
+    &&& st.head == st0.head + lay_text(st0.format, l).len()
+    &&& forall|t: Term| is_set_like(t) && set_of(t) == terms.to_set() && (if l->Set_ext { t is SetExtension } else { t is SetIntension }) ==> #[trigger] lay_of(l, t)
+}
+pub proof fn lemma_set_exit(st0: &ParseState<'_, &str>, st: &ParseState<'_, &str>, l: Lay, terms: Seq<Term>)
+    requires
+        e_hyp(st0, l), l is Set,
+        terms.len() == l->Set_items.len(),
+        forall|i: int| 0 <= i < terms.len() ==> lay_of(l->Set_items[i], #[trigger] terms[i]),
+        st.head == list_pos(st0.format, l->Set_items, l->Set_items.len(), st0.head + set_open(st0.format, l->Set_ext).len(), Seq::empty()) + set_close(st0.format, l->Set_ext).len(),
+    ensures set_built(st0, st, l, terms)
+{
+    let f = st0.format; let items = l->Set_items; let ext = l->Set_ext;
+    lemma_list_pos_join(f, items, items.len(), st0.head + set_open(f, ext).len(), Seq::empty());
+    assert(lay_ok(f, st0.env@, l, st0.head as int));
+    assert(lay_oitems(items, terms));
+    assert forall|t: Term| is_set_like(t) && set_of(t) == terms.to_set() && (if ext { t is SetExtension } else { t is SetIntension }) implies #[trigger] lay_of(l, t) by {
+        assert(terms.to_set() == set_of(t) && lay_oitems(items, terms));
+        assert(lay_uitems(items, t));
+    }
+}
+
+// ---- compounds: bracket, connecter, items, bracket (parse_compound) ----
+/// one of the twelve connecters stands at the cursor
+pub open spec fn connecter_here(st: &ParseState<'_, &str>) -> bool {
+    let c = st.format.compound;
+    st.at_head(c.connecter_conjunction@) || st.at_head(c.connecter_disjunction@) || st.at_head(c.connecter_negation@)
+        || st.at_head(c.connecter_conjunction_sequential@) || st.at_head(c.connecter_conjunction_parallel@)
+        || st.at_head(c.connecter_intersection_extension@) || st.at_head(c.connecter_intersection_intension@)
+        || st.at_head(c.connecter_difference_extension@) || st.at_head(c.connecter_difference_intension@)
+        || st.at_head(c.connecter_product@) || st.at_head(c.connecter_image_extension@) || st.at_head(c.connecter_image_intension@)
+}
+/// after the opening bracket: the cursor is on the layout's connecter, which is the first match
+pub open spec fn compound_entry(st0: &ParseState<'_, &str>, st: &ParseState<'_, &str>, l: Lay) -> bool {
+    &&& l is Compound
+    &&& st.head == st0.head + st0.format.compound.brackets.0@.len()
+    &&& !st.at_head(st.format.atom.prefix_operator@)
+    &&& first_at(st, compound_try_order(st.format), l->Compound_k)
+    &&& connecter_here(st)
+}
+pub proof fn lemma_compound_entry(st0: &ParseState<'_, &str>, st: &ParseState<'_, &str>, l: Lay)
+    requires e_hyp(st0, l), l is Compound, st.same_but_head(st0), st0.wf(),
+        st.head == st0.after_spaces(st0.head + st0.format.compound.brackets.0@.len()),
+    ensures compound_entry(st0, st, l)
+{
+    let f = st0.format; let e = st0.env@; let k = l->Compound_k;
+    let c = st0.head + f.compound.brackets.0@.len();
+    assert(lay_ok(f, e, l, st0.head as int));
+    assert(!kw_at(e, c, f.space.parse@));
+    assert(st.head == c);
+    assert(first_at_e(e, c, compound_try_order(f), k));
+    assert(st.at_head(compound_try_order(f)[k]));
+}
+/// what the connecter arm initialised the term with
+pub open spec fn compound_init(k: int, t: Term) -> bool {
+    &&& compound_kind(k, t)
+    &&& ((k == 0 || k == 1 || k == 4 || k == 5 || k == 6) ==> set_of(t) =~= Set::<Term>::empty())
+    &&& ((k == 3 || k == 9) ==> ordered_components(t).len() == 0)
+    &&& ((k == 10 || k == 11) ==> ordered_components(t).len() == 0)
+}
+/// after the component loop
+pub open spec fn compound_mid(st0: &ParseState<'_, &str>, st: &ParseState<'_, &str>, l: Lay, term: Term, terms: Seq<Term>) -> bool {
+    let f = st0.format; let k = l->Compound_k; let items = l->Compound_items;
+    &&& l is Compound && 0 <= k < 12
+    &&& compound_init(k, term)
+    &&& lay_oitems(items, terms) && terms.len() > 0
+    &&& (k == 2 ==> terms.len() == 1) && ((k == 7 || k == 8) ==> terms.len() == 2)
+    &&& ((k == 10 || k == 11) ==> exists|i: int| #[trigger] is_first_placeholder(terms, i))
+    &&& st.head + f.compound.brackets.1@.len() == st0.head + lay_text(f, l).len()
+    &&& !kw_at(st0.env@, st.head as int, f.space.parse@)
+}
+/// a term with a layout that is not the placeholder atom's is not the placeholder
+pub proof fn lemma_not_placeholder(l: Lay, t: Term)
+    requires lay_of(l, t), !(l matches Lay::Atom { k, .. } && k == 0)
+    ensures t != Term::Placeholder
+{
+}
+pub proof fn lemma_compound_mid(st0: &ParseState<'_, &str>, at: &ParseState<'_, &str>, at2: &ParseState<'_, &str>, st: &ParseState<'_, &str>, l: Lay, term: Term, t0: Seq<Term>, terms: Seq<Term>)
+    requires e_hyp(st0, l), l is Compound, compound_entry(st0, at, l), compound_init(l->Compound_k, term),
+        t0.len() == 0,
+        at2.head == at.head + compound_try_order(st0.format)[l->Compound_k].len(),
+        list_done(at2, st.head as int, l->Compound_items, st0.format.compound.brackets.1@, lay_sep(st0.format), t0, terms),
+        at.same_but_head(st0), at2.same_but_head(st0), st.same_but_head(st0),
+    ensures compound_mid(st0, st, l, term, terms)
+{
+    let f = st0.format; let e = st0.env@; let k = l->Compound_k; let items = l->Compound_items;
+    assert(lay_ok(f, e, l, st0.head as int));
+    let c = st0.head + f.compound.brackets.0@.len();
+    let x0 = c + compound_try_order(f)[k].len();
+    lemma_list_pos_join(f, items, items.len(), x0, lay_sep(f));
+    assert(lay_oitems(items, terms));
+    if k == 10 || k == 11 {
+        let i0 = choose|i: int| #[trigger] lay_first_ph(items, i);
+        assert(lay_of(items[i0], terms[i0]));
+        assert(terms[i0] == Term::Placeholder);
+        assert forall|j: int| 0 <= j < i0 implies terms[j] != Term::Placeholder by {
+            assert(lay_of(items[j], terms[j]));
+            lemma_not_placeholder(items[j], terms[j]);
+        }
+        assert(is_first_placeholder(terms, i0));
+    }
+}
+/// what the fill stage built from the parsed terms, kind by kind
+pub open spec fn compound_filled(k: int, terms: Seq<Term>, t: Term) -> bool {
+    if k == 2 { is_Negation(t, terms[0]) }
+    else if k == 7 { is_DifferenceExtension(t, terms[0], terms[1]) }
+    else if k == 8 { is_DifferenceIntension(t, terms[0], terms[1]) }
+    else if k == 3 { t matches Term::ConjunctionSequential(v) && v@ =~= terms }
+    else if k == 9 { t matches Term::Product(v) && v@ =~= terms }
+    else if k == 10 { t matches Term::ImageExtension(i, v) && is_first_placeholder(terms, i as int) && v@ =~= terms.remove(i as int) }
+    else if k == 11 { t matches Term::ImageIntension(i, v) && is_first_placeholder(terms, i as int) && v@ =~= terms.remove(i as int) }
+    else { compound_kind(k, t) && set_of(t) =~= terms.to_set() }
+}
+pub proof fn lemma_compound_done(l: Lay, terms: Seq<Term>, t: Term)
+    requires l is Compound, 0 <= l->Compound_k < 12, lay_oitems(l->Compound_items, terms), compound_filled(l->Compound_k, terms, t),
+        (l->Compound_k == 2 ==> terms.len() == 1), ((l->Compound_k == 7 || l->Compound_k == 8) ==> terms.len() == 2),
+    ensures lay_of(l, t)
+{
+    let k = l->Compound_k; let items = l->Compound_items;
+    if k == 2 {
+        assert(printed_components(t) =~= terms);
+    } else if k == 7 || k == 8 {
+        assert(printed_components(t) =~= terms);
+    } else if k == 3 || k == 9 {
+        assert(printed_components(t) =~= terms);
+    } else if k == 10 || k == 11 {
+        match t {
+            Term::ImageExtension(i, v) | Term::ImageIntension(i, v) => {
+                assert(terms[i as int] == Term::Placeholder);
+                assert(terms.remove(i as int).insert(i as int, Term::Placeholder) =~= terms);
+                assert(printed_components(t) =~= terms);
+            },
+            _ => {},
+        }
+    } else {
+        assert(is_set_like(t));
+        assert(terms.to_set() == set_of(t) && lay_oitems(items, terms));
+        assert(lay_uitems(items, t));
+    }
+}
+
+// ---- statements: bracket, subject, copula, predicate, bracket (parse_statement) ----
+/// the copulas the formatter writes
+pub open spec fn stmt_k_ok(k: int) -> bool { k == 0 || k == 1 || k == 2 || k == 3 || k == 7 || k == 8 || k == 9 || k == 10 || k == 11 }
+/// marker for instantiating the predicate closure's contract (always true)
+pub open spec fn pred_mark(l: Lay, h: int) -> bool { true }
+/// one of the thirteen copulas stands at the cursor
+pub open spec fn copula_here(st: &ParseState<'_, &str>) -> bool {
+    exists|k: int| 0 <= k < 13 && st.at_head(#[trigger] copula_seq(st.format)[k])
+}
+/// positions inside the text of a statement layout standing at p
+pub open spec fn stmt_pa(f: &NarseseFormat<&str>, p: int) -> int { p + f.statement.brackets.0@.len() }
+pub open spec fn stmt_pc(f: &NarseseFormat<&str>, l: Lay, p: int) -> int { stmt_pa(f, p) + lay_text(f, *l->Stmt_l).len() + f.space.format_terms@.len() }
+pub open spec fn stmt_pb(f: &NarseseFormat<&str>, l: Lay, p: int) -> int { stmt_pc(f, l, p) + copula_seq(f)[l->Stmt_k].len() + f.space.format_terms@.len() }
+/// after the opening bracket: the cursor is on the subject
+pub open spec fn stmt_entry(st0: &ParseState<'_, &str>, st: &ParseState<'_, &str>, l: Lay) -> bool {
+    l is Stmt && st.head == stmt_pa(st0.format, st0.head as int) && e_hyp(st, *l->Stmt_l)
+}
+pub proof fn lemma_stmt_entry(st0: &ParseState<'_, &str>, st: &ParseState<'_, &str>, l: Lay)
+    requires e_hyp(st0, l), l is Stmt, st.same_but_head(st0), st0.wf(),
+        st.head == st0.after_spaces(st0.head + st0.format.statement.brackets.0@.len()),
+    ensures stmt_entry(st0, st, l)
+{
+    let f = st0.format; let e = st0.env@;
+    assert(lay_ok(f, e, l, st0.head as int));
+    assert(!kw_at(e, stmt_pa(f, st0.head as int), f.space.parse@));
+}
+/// at the copula: it is the first match, and after it (and the spaces) stands the predicate
+pub open spec fn stmt_at_copula(st0: &ParseState<'_, &str>, st: &ParseState<'_, &str>, l: Lay) -> bool {
+    let f = st0.format; let e = st0.env@; let k = l->Stmt_k;
+    &&& l is Stmt && stmt_k_ok(k)
+    &&& st.head == stmt_pc(f, l, st0.head as int)
+    &&& first_at(st, copula_seq(f), k)
+    &&& copula_here(st)
+    &&& pred_mark(*l->Stmt_r, st.head + copula_seq(f)[k].len())
+    &&& spaces_end(e, f.space.parse@, st.head + copula_seq(f)[k].len()) == stmt_pb(f, l, st0.head as int)
+    &&& lay_ok(f, e, *l->Stmt_r, stmt_pb(f, l, st0.head as int))
+}
+pub proof fn lemma_stmt_at_copula(st0: &ParseState<'_, &str>, st: &ParseState<'_, &str>, l: Lay)
+    requires e_hyp(st0, l), l is Stmt, st.same_but_head(st0), st0.wf(),
+        st.head == st0.after_spaces(stmt_pa(st0.format, st0.head as int) + lay_text(st0.format, *l->Stmt_l).len()),
+    ensures stmt_at_copula(st0, st, l)
+{
+    let f = st0.format; let e = st0.env@; let k = l->Stmt_k;
+    assert(lay_ok(f, e, l, st0.head as int));
+    assert(first_at_e(e, stmt_pc(f, l, st0.head as int), copula_seq(f), k));
+    assert(st.at_head(copula_seq(f)[k]));
+}
+/// the finished statement has the layout; the cursor is on the closing bracket, off the spaces
+pub proof fn lemma_stmt_done(st0: &ParseState<'_, &str>, st: &ParseState<'_, &str>, l: Lay, t: Term, s: Term)
+    requires e_hyp(st0, l), l is Stmt, lay_of(*l->Stmt_l, s), stmt_shape(l->Stmt_k, t, s), lay_of(*l->Stmt_r, ordered_components(t)[1]), stmt_k_ok(l->Stmt_k),
+        st.head == stmt_pb(st0.format, l, st0.head as int) + lay_text(st0.format, *l->Stmt_r).len(),
+        st.same_but_head(st0),
+    ensures lay_of(l, t), !st.at_head(st0.format.space.parse@),
+        st.head + st0.format.statement.brackets.1@.len() == st0.head + lay_text(st0.format, l).len(),
+{
+    let f = st0.format; let e = st0.env@;
+    assert(lay_ok(f, e, l, st0.head as int));
 }
